@@ -1,21 +1,27 @@
-"""C17 — decided by the shared IRC-layer engine (checks/irc_common.py); the HTTP-level stage
-(checks/irc_http.py) adds what a complete node does: lookups, DELETE and "receives nothing further"
-observed on the real long polls of ended sessions."""
+"""C17 — three stages: the shared IRC-layer engine (checks/irc_common.py: lookups on every lagging prefix,
+ExpireSessions around the threshold, ended sessions gone), the HTTP-level stage (checks/irc_http.py: lookups,
+DELETE and "receives nothing further" on the real long polls of a complete node) and the expiry stage
+(checks/c17_expiry.py: the timer loop of main() on 1 and 3 real nodes, validated against Expiry.tla)."""
 import json
 
-from checks import irc_common, irc_http
+from checks import irc_common, irc_http, c17_expiry
 
 LEVEL = "model_checking"
 
 
 def run(ctx):
-    rp = None
+    rp = {}
     if getattr(ctx, "replay", None):
         with open(ctx.replay) as fh:
-            rp = (json.load(fh).get("replay") or {}).get("rig_program")
-    if rp:
-        irc_http.report(ctx, "C17", replay_program=rp)
+            rp = json.load(fh).get("replay") or {}
+    if rp.get("rig_program"):
+        irc_http.report(ctx, "C17", replay_program=rp["rig_program"])
+        return
+    if rp.get("scenario"):
+        c17_expiry.report(ctx, replay=rp["scenario"])
         return
     irc_common.report(ctx, "C17")
     if not getattr(ctx, "replay", None):
         irc_http.report(ctx, "C17")
+        if not getattr(ctx, "selftest", False):
+            c17_expiry.report(ctx)
